@@ -27,7 +27,7 @@ Proof.
   - cbn [rrun]. intros H. discriminate.
   - rewrite rrun_bind.
     destruct (rrun (refill (refill_fuel ls) (ri_q it)) s) as [s1 [q|k|]]; try discriminate.
-    destruct (pop_fronts (q_queues q)) as [[vs qs]|k|]; cbn [rrun]; intros H; try discriminate.
+    destruct (pop_fronts (q_proto q) (q_queues q)) as [[vs qs]|k|]; cbn [rrun]; intros H; try discriminate.
     injection H as _ <- _. cbn [ri_read ri_records]. lia.
 Qed.
 
@@ -52,7 +52,7 @@ Lemma raw_new_fields (s : pr) fo recs proto s1 it :
   rrun (raw_new fo recs proto) s = (s1, Ok it) -> ri_records it = recs /\ ri_read it = 0.
 Proof.
   unfold raw_new. rewrite rrun_bind.
-  destruct (rrun (qr_new fo proto) s) as [s2 [q|k|]]; try discriminate.
+  destruct (rrun (qr_new fo recs proto) s) as [s2 [q|k|]]; try discriminate.
   unfold rret. cbn [rrun]. intros H. injection H as _ <-. split; reflexivity.
 Qed.
 
